@@ -323,6 +323,8 @@ def run_case(case):
         h = case['history']
         prev, nxt = build(h[:-1]), build(h)
         return {'violations': step_check(h[:-1], h[-1], prev, nxt), 'transitions': 1}
+    if case['kind'] == 'planning':
+        return run_planning_case(case)
     if case['kind'] == 'outcomes':
         # one pass over all depth-2 histories of a world to classify outcome kinds (vacuity guard)
         kinds = {}
@@ -363,6 +365,13 @@ def main(rep, tier, seed):
             cases.append({'kind': 'bfs', 'world': w, 'prefix': [], 'depth': 1, 'menu': full})
             cases.append({'kind': 'outcomes', 'world': w, 'menu': menu})
         space += len(worlds) * sum(len(ev_menu) ** k for k in range(1, depth + 1))
+    import itertools
+    names = list(PLAN_MENU)
+    for k in (1, 2, 3):
+        for b in itertools.permutations(names, k):
+            if k == 3 and tier == 'quick' and (names.index(b[0]) + names.index(b[1]) + names.index(b[2]) + seed) % 5:
+                continue
+            cases.append({'kind': 'planning', 'batch': list(b)})
     results, stats = engine.run_pool('checks.c14', cases, horizon=3000, chunksize=1)
     rep.absorb(results)
     rep.cov['bound'] = '; '.join(f'history depth {d} over {len(m)} request shapes x {len(PATHS)} paths on {len(w)} worlds'
@@ -374,7 +383,9 @@ def main(rep, tier, seed):
         '(4 real OMS objects, 48-slot bitmaps, guard band 4 slots, one UNUSABLE sub-band, pre-occupied regions); every '
         'transition is one real pth_assign_spectrum call compared with the set model. states = distinct tuples of '
         'bitmaps per (world, first event) subtree; space_size = number of histories covered (before state merging); '
-        'a history is non-trivial when it contains an accepted request followed by a blocked request sharing an OMS.')
+        'a history is non-trivial when it contains an accepted request followed by a blocked request sharing an OMS. '
+        'Seam binding: every ordered batch of 1-2 (and a fifth / all of the 3-) requests from an 11-entry menu through the real '
+        'planning() on a designed 3-site network, same set model on the returned OMS list.')
     rep.assumptions += [
         'path elements are minimal objects carrying oms_id (the only attribute pth_assign_spectrum reads)',
         'guard-band limits are read from each real Bitmap (freq_index_min/max)',
@@ -382,3 +393,83 @@ def main(rep, tier, seed):
     kinds = {k for k in rep.tags}
     rep.require(len(kinds) >= 3, f'only outcome kinds {sorted(kinds)} observed (need accepted + 2 blocking kinds)')
     rep.require(len(rep._nontrivial) >= 4, 'fewer than 4 histories with an accepted then a blocked request on a shared OMS')
+
+
+# ---- seam binding: ordered request batches through planning() on a designed network -----------------------------------------
+PLAN_MENU = {
+    'free1': dict(src='A', dst='C', bw=100, slots=None),
+    'free3': dict(src='A', dst='C', bw=300, slots=None),
+    'free_ab': dict(src='A', dst='B', bw=200, slots=None),
+    'bidir_ca': dict(src='C', dst='A', bw=100, slots=None, bidir=True),
+    'fixed_n': dict(src='A', dst='B', bw=100, slots=[{'N': -200, 'M': None}]),
+    'fixed_nm': dict(src='B', dst='C', bw=200, slots=[{'N': -200, 'M': 8}]),
+    'fixed_nm_same': dict(src='A', dst='C', bw=100, slots=[{'N': -200, 'M': 4}]),
+    'edge_low': dict(src='A', dst='C', bw=100, slots=[{'N': -287, 'M': 4}]),
+    'outside': dict(src='A', dst='C', bw=100, slots=[{'N': 600, 'M': 4}]),
+    'two_slots': dict(src='C', dst='B', bw=200, slots=[{'N': -260, 'M': 4}, {'N': None, 'M': None}]),
+    'huge': dict(src='A', dst='B', bw=9000, slots=None),
+}
+
+
+def run_planning_case(case):
+    import copy
+    from checks import common as c
+    from checks import reqgen as rg
+    from gnpy.tools.worker_utils import planning
+    viol = []
+    topo = c.build_topology(['A', 'B', 'C'], [('A', 'B', [c.fiber(80)], [c.fiber(80)]), ('B', 'C', [c.fiber(60)], [c.fiber(60)])])
+    net, equipment, _, _ = c.design(topo, c.eqpt_json('test'))
+    reqs = []
+    for k, name in enumerate(case['batch']):
+        m = PLAN_MENU[name]
+        reqs.append(rg.request(f'{k}{name}', f'trx {m["src"]}', f'trx {m["dst"]}', trx_type='Voyager', mode='mode 1',
+                               bandwidth=m['bw'] * 1e9, bidir=m.get('bidir', False), slots=copy.deepcopy(m['slots'])))
+    where = f'planning() batch {case["batch"]}'
+    try:
+        oms_list, ppaths, rpaths, rqs, dsjn, result = planning(net, equipment, rg.service(reqs))
+    except Exception as exc:  # noqa
+        return {'violations': [dict(fingerprint=f'planning-raised:{type(exc).__name__}', what=f'{where}: {str(exc)[:200]}', case=case)],
+                'transitions': 1}
+    # model
+    occ = {o.oms_id: set() for o in oms_list}
+    tags = {}
+    for rq, pp, rp in zip(rqs, ppaths, rpaths):
+        reason = getattr(rq, 'blocking_reason', None)
+        if reason is not None:
+            if rq.N is not None or rq.M is not None:
+                viol.append(dict(fingerprint='blocked-with-labels', what=f'{where}: {rq.request_id} blocked ({reason}) keeps N/M'))
+            tags['plan:' + reason] = 1
+            continue
+        tags['plan:accepted'] = 1
+        oms_ids = {e.oms_id for e in pp if hasattr(e, 'oms_id')}
+        # planning() books the opposite direction too (reversed path passed to pth_assign_spectrum for every request)
+        oms_ids |= {oms_list[o].reversed_oms.oms_id for o in list(oms_ids) if oms_list[o].reversed_oms is not None}
+        nm = list(zip(rq.N, rq.M))
+        slots = set()
+        for n, m in nm:
+            r = set(range(n - m, n + m))
+            if slots & r:
+                viol.append(dict(fingerprint='self-overlap', what=f'{where}: {rq.request_id} labels {nm}'))
+            slots |= r
+        nb_wl = -(-int(rq.path_bandwidth) // int(rq.bit_rate))
+        if sum(m for _, m in nm) < nb_wl * 4:
+            viol.append(dict(fingerprint='not-enough-slots', what=f'{where}: {rq.request_id} got {nm} for {nb_wl} channels'))
+        for o in oms_ids:
+            bm = oms_list[o].spectrum_bitmap
+            if slots & occ[o]:
+                viol.append(dict(fingerprint='double-booking', what=f'{where}: {rq.request_id} labels {nm} overlap earlier '
+                                 f'assignments on oms {o}: {sorted(slots & occ[o])[:4]}'))
+            if min(slots) < bm.freq_index_min or max(slots) > bm.freq_index_max:
+                viol.append(dict(fingerprint='guard-band', what=f'{where}: {rq.request_id} labels {nm} outside '
+                                 f'[{bm.freq_index_min},{bm.freq_index_max}] of oms {o}'))
+            occ[o] |= slots
+    for o in oms_list:
+        bm = o.spectrum_bitmap
+        got = {n for n, b in zip(bm.freq_index, bm.bitmap) if b.name == 'OCCUPIED'}
+        if got != occ[o.oms_id]:
+            viol.append(dict(fingerprint='occupancy-not-union', what=f'{where}: oms {o.oms_id} ({o.el_id_list[0]}->{o.el_id_list[-1]}) '
+                             f'records {len(got)} occupied slots, accepted assignments cover {len(occ[o.oms_id])}'))
+    for v in viol:
+        v['case'] = case
+    return {'violations': viol[:6], 'transitions': len(rqs), 'traces': 0 if viol else 1, 'states': 1,
+            'nontrivial': len(case['batch']) > 1, 'tags': tags, 'outcomes': [], 'sample': case}
